@@ -200,7 +200,9 @@ def run_one(check, job):
         tb = "".join(traceback.format_exception(type(c.exc), c.exc, c.exc.__traceback__))[-3000:] if c.exc else ""
         handler = getattr(check, "on_crash", None)
         verdict = handler(ctx, c) if handler else None
-        if verdict is None:
+        if verdict == "discard":
+            res.update(status="discard", msg="crash outside the property's space: %s" % c)
+        elif verdict is None:
             res.update(status="error", rule="mpf_crash", sig=type(c.exc).__name__, msg=str(c), trace=tb)
         else:
             rule, sig, msg = verdict
